@@ -13,14 +13,21 @@ ALL_LIB = ['N2kMsg.cpp', 'N2kStream.cpp', 'N2kMessages.cpp', 'N2kTimer.cpp', 'N2
            'N2kGroupFunctionDefaultHandlers.cpp', 'NMEA2000.cpp', 'N2kDeviceList.cpp', 'Seasmart.cpp',
            'ActisenseReader.cpp', 'N2kMaretron.cpp']
 
-PROPS = {
-    'C20': {
-        'engine': 'ring', 'harness': 'ring.cpp', 'repo_srcs': [],
-        'lean_modules': ['N2k.Props.C20'], 'props_files': ['N2k/Props/C20.lean'],
-        'case_start': ['new', 'pnew'],
-        'trusted_base': ["model N2k/Model/RingBuffer.lean transcribes RingBuffer.tpp by hand (T = uint32_t); "
-                         "uint16_t index arithmetic modelled on Nat (sizes up to 65535, no overflow possible: "
-                         "head+1 is computed in int)"],
-        'assumptions': ["single-threaded use of the buffers", "element type is trivially copyable (memcpy)"],
-    },
-}
+import os, glob, importlib.util
+
+PROPS = {}
+MANIFEST_TEXT = {}
+
+
+def _load():
+    d = os.path.join(os.path.dirname(os.path.abspath(__file__)), 'props')
+    for p in sorted(glob.glob(os.path.join(d, 'C*.py'))):
+        pid = os.path.basename(p)[:-3]
+        s = importlib.util.spec_from_file_location('props_' + pid, p)
+        m = importlib.util.module_from_spec(s)
+        s.loader.exec_module(m)
+        PROPS[pid] = m.SPEC
+        MANIFEST_TEXT[pid] = m.MANIFEST
+
+
+_load()
